@@ -2,7 +2,7 @@
 import re
 
 from analysis import (mirror, Prov, Guards, fmt, fmt_short, walk, roots, short, comparison, find_calls, callee_matches,
-                      must_pass, named_switches, normalised_cmp, cmp_intervals, const_int_of)
+                      must_pass, named_switches, normalised_cmp, cmp_intervals, const_int_of, field_writes, option_edges, canon)
 from facts import AnchorError, strip_closure
 from harness import Rule, guarded
 from c01 import bool_pass_edges
@@ -123,7 +123,7 @@ def r2(ctx, tables):
 
 def r3(ctx):
     facts = ctx.facts
-    rule = Rule("C09.R3", "finish / timeout remove the query; the result is handed to the caller once", floor=6, engine="A-dom + linear resource")
+    rule = Rule("C09.R3", "finish / timeout remove the query; the result is handed to the caller once; the timeout counts from the first poll", floor=8, engine="A-dom + linear resource")
     b = facts.one(re.escape(POOL + "poll"))
     rule.analysed(b)
     p = Prov(b, facts)
@@ -159,6 +159,40 @@ def r3(ctx):
     r = b.reachable(0, removed_edges=tos)
     rule.check(bool(tos) and marks and not any(m in r for m in marks), "a query is marked timed out only past now - started >= query_timeout", "poll|timeout-test",
                "QueryPool::poll marks a query as timed out without comparing its age with query_timeout", loc=b.loc(b.line))
+    # the age is counted from the first poll of the query: `started` is stamped once (never moved forward again) and before the test
+    stamps, bad = [], []
+    ws = field_writes(facts, r"crate::query_pool::Query($|<)", "started")
+    some_e, none_e = option_edges(g, lambda x: fmt_short(x).endswith(".started"))
+    for wb, wbi, wline, kind, e in ws:
+        if kind == "construct":
+            if not all(x[0] == "agg" and x[1].endswith("Option::None") for x in roots(e)):
+                bad.append("%s constructs a Query that has already started" % wb.path.split("::")[-1])
+            continue
+        if wb.path != b.path:
+            bad.append("%s writes Query::started" % wb.path)
+            continue
+        ce = canon(e)
+        if ce[0] == "call" and re.search(r"Option::(or|or_else)$", short(ce[1])) and fmt_short(ce[2][0]).endswith(".started"):
+            stamps.append(wbi)
+        elif none_e and wbi not in b.reachable(0, removed_edges=none_e):
+            stamps.extend(bi for bi, _ in none_e)
+        else:
+            bad.append("poll assigns started = %s whether or not it is already set" % fmt_short(ce)[:120])
+    for bi, t in b.calls():
+        if re.search(r"Option::get_or_insert(_with)?$", short(t.callee() or "")) and fmt_short(p.operand(t.args[0])).endswith(".started"):
+            stamps.append(bi)
+    for blk in b.blocks:
+        for st_ in blk.stmts:
+            if st_.k == "a" and st_.rv.k == "ref" and st_.rv.j.get("bk") == "mut" and st_.rv.place is not None and st_.rv.place.proj and \
+                    isinstance(st_.rv.place.proj[-1], tuple) and st_.rv.place.proj[-1][0] == "f" and st_.rv.place.proj[-1][2] == "started" and blk.idx in b.live_blocks():
+                users = [t for bi, t in b.calls() if any(a.place is not None and a.place.local == st_.lhs.local for a in t.args)]
+                if not users or not all(re.search(r"Option::get_or_insert(_with)?$", short(t.callee() or "")) for t in users):
+                    bad.append("poll hands out &mut started")
+    rule.check(not bad and bool(stamps), "Query::started is None at construction and stamped once (`started.or(Some(now))`), never moved forward", "poll|start-restamped",
+               "the start of a lookup can be stamped again (%s): the query timeout is then counted from a later moment and a lookup that keeps "
+               "getting new peers is never cut off" % "; ".join(bad or ["no stamp found"]), loc=b.loc(b.line))
+    rule.check(bool(stamps) and bool(tos) and all(any(b.dominates(s_, tb) for s_ in stamps) for tb, _ in tos), "the stamp precedes the timeout test on every path",
+               "poll|start-not-stamped", "QueryPool::poll can test a query's age before its start was stamped (the age is then 0 and the query never times out)", loc=b.loc(b.line))
     # which QueryState arms lead to the timeout test
     arms = {}
     for bi, t, e in g.switches():
